@@ -269,6 +269,23 @@ def r7(ctx):
     ctx.check(ws == ["Empty"], "Assembler::reset", "Assembler::reset -> Empty", ab.where(line=ab.line))
     lb = prog.body("link::layer::Layer::reset")
     ctx.check(bool(call_sites(lb, r"link::reader::Reader::reset$")), "Layer::reset", "Layer::reset resets the link reader", lb.where(line=lb.line))
+    # ...down to the bottom: the link reader drops its buffered bytes AND its parser state, the parser goes back to FindSync1,
+    # the link layer forgets the secondary-station state. A reset that leaves the parser mid-frame makes the next session's first
+    # bytes the "body" of a stale header (lost frame in discard mode, every following session failing in close mode).
+    sb_ = ctx.sym(lb)
+    ws_ = [variant_name(sb_.rvalue_expr(st.rv)) for b, si, st in field_writes(lb, "secondary_state")]
+    ctx.check(ws_ == ["NotReset"], "Layer::reset:secondary", "Layer::reset -> SecondaryState::NotReset (%s)" % ws_, lb.where(line=lb.line))
+    lr = prog.body("link::reader::Reader::reset")
+    for rx, nm in ((r"link::reader::ReadBuffer::reset$", "buffer"), (r"link::parser::Parser::reset$", "parser")):
+        rs = {b.idx for b in call_sites(lr, rx)}
+        ok = bool(rs) and all(must_pass(lr, 0, r, rs) for r in return_blocks(lr))
+        ctx.check(ok, "link-Reader::reset:%s" % nm, "link::reader::Reader::reset resets its %s on every path" % nm, lr.where(line=lr.line), bad_detail="link::reader::Reader::reset does not reset its %s: state of the previous session leaks into the next one" % nm)
+    pb_ = prog.body("link::parser::Parser::reset")
+    ws_ = [variant_name(ctx.sym(pb_).rvalue_expr(st.rv)) for b, si, st in field_writes(pb_, "state")]
+    ctx.check(ws_ == ["FindSync1"], "Parser::reset", "Parser::reset -> FindSync1 (%s)" % ws_, pb_.where(line=pb_.line))
+    bb_ = prog.body("link::reader::ReadBuffer::reset")
+    zs = {st.dest.proj[-1]: const_value(prog, ctx.sym(bb_).rvalue_expr(st.rv)) for b, si, st in bb_.assigns() if st.dest.proj}
+    ctx.check(zs.get(".begin") == 0 and zs.get(".end") == 0, "ReadBuffer::reset", "ReadBuffer::reset -> begin = end = 0 (%s)" % zs, bb_.where(line=bb_.line))
     wb = prog.body("transport::real::writer::Writer::reset")
     ctx.check(bool(call_sites(wb, r"real::sequence::Sequence::reset$")), "Writer::reset", "Writer::reset resets the sequence", wb.where(line=wb.line))
     for fn_, callee in (("transport::reader::TransportReader::reset", r"real::reader::Reader::reset$"), ("transport::writer::TransportWriter::reset", r"real::writer::Writer::reset$")):
